@@ -42,7 +42,10 @@ def run(o, prop, tier, seed):
         first += [x for x in diffs if x][:3]
     for line in codec.read_monitor(dirs)[:100]:
         what, _, rest = line.partition(" bytes=")
-        o.violation(what[:200], {"input": {"payload": rest[:20000]}, "monitor_line": line[:4000]})
+        kind, _, where = what.partition(" path=")
+        # one kind of failure = one VIOLATION line (the path and the version pair are details)
+        o.violation((kind.replace(":", ";") + ": path=" + where)[:200],
+                    {"input": {"payload": rest[:20000]}, "monitor_line": line[:4000]})
     if ndiff:
         o.obligation_broken("correspondence interop: payload delivered by the real broker differs from convert_api of the "
                             "model on %d of %d deliveries" % (ndiff, compared), json.dumps(first[:4])[:3000])
